@@ -71,7 +71,7 @@ fn c06_const_choice_predicates() {
 macro_rules! uint_cmp {
     ($name:ident, $L:expr) => {
         #[kani::proof]
-        #[kani::unwind(8)]
+        #[kani::unwind(10)]
         fn $name() {
             const L: usize = $L;
             let a: Uint<L> = any_uint();
